@@ -400,6 +400,7 @@ type wstate struct {
 	// exactly the value it held before")
 	cleanRewrote map[string]bool
 	corrupted    map[string]bool // files damaged by the driver (storage fault)
+	faultPaths   map[string]bool // paths of the operations that were made to fail in the current lifetime
 }
 
 var footerLine = regexp.MustCompile(`(?m)^at (.+):\d+$`)
@@ -919,6 +920,18 @@ func (st *wstate) runLifetime(i int, l *scen.Lifetime) {
 				}
 				plan = nil
 				break
+			}
+		}
+	}
+	// paths on which an operation was made to fail in this lifetime: a file that is left
+	// behind there (a temporary file that could not be removed or renamed) is the fault's
+	// doing, not a file "no call can have produced"
+	st.faultPaths = map[string]bool{}
+	for _, op := range rep.Ops {
+		if op.Fault {
+			st.faultPaths[op.Path] = true
+			if op.Kind == "rename" {
+				st.faultPaths[op.Arg] = true
 			}
 		}
 	}
